@@ -1,7 +1,7 @@
 (* C03 Flattened (child/parent) mappings are faithful; each nested struct is built once (partial: see DESIGN.md). *)
 From Coq Require Import List String Ascii Bool Permutation.
 From O2o.Model Require Import Tok Syn Attr Ast Lookup Expand.
-From O2o.Lemmas Require Import Designated Flatten.
+From O2o.Lemmas Require Import Designated Flatten Descent.
 Import ListNotations.
 
 (* #[child(a.b)]: from() reads value.a.b.<field> ... *)
@@ -46,6 +46,32 @@ Print Assumptions C03_into_once_refuted.
 Theorem C03_into_once_grouped_instance : top_level_count "vehicle" (struct_init_block f03a_struct_grouped f03a_ctx) = 1.
 Proof. exact built_once_when_grouped. Qed.
 Print Assumptions C03_into_once_grouped_instance.
+
+(* what a nested struct literal consumes, for every struct, context, fuel and member list: a contiguous prefix of the members it
+   is handed, stopping exactly at the first member that is not under its path (or at the end) ... *)
+Theorem C03_literal_consumes_a_prefix : forall s c fuel cd members named cp depth hint ts rest,
+  render_child s c fuel cd members named cp depth hint = Ok (ts, rest) ->
+  (exists consumed, members = consumed ++ rest) /\
+  (rest = [] \/ exists m r p, rest = m :: r /\ nth_error (child_path_strs cp) depth = Some p /\ under p m = false).
+Proof. exact nested_literal_consumes_a_prefix. Qed.
+Print Assumptions C03_literal_consumes_a_prefix.
+
+(* ... the top-level literal consumes everything (no member is dropped by the descent) ... *)
+Theorem C03_top_level_consumes_all : forall s c fuel members named ts rest,
+  init_inner s c fuel members named None = Ok (ts, rest) -> rest = [].
+Proof. exact top_level_consumes_all. Qed.
+Print Assumptions C03_top_level_consumes_all.
+
+(* ... and so, for ANY order of the flat struct's fields, all the members of one FULL child path go into one struct literal:
+   once the literal for path p has been started at a member of path p, no member left over has path p.  This is the part of
+   "each intermediate struct is built once" that holds unconditionally; for a proper prefix of a path it does not
+   (C03_into_once_refuted, finding F-03a). *)
+Theorem C03_one_literal_per_full_path : forall s c fuel cd pre h tl_ named cp depth hint ts rest p,
+  sorted_containers s = pre ++ h :: tl_ -> fc_path h = p -> nth_error (child_path_strs cp) depth = Some p ->
+  render_child s c fuel cd (h :: tl_) named cp depth hint = Ok (ts, rest) ->
+  forall z, In z rest -> fc_path z <> p.
+Proof. exact exact_path_members_go_into_one_literal. Qed.
+Print Assumptions C03_one_literal_per_full_path.
 
 (* a bare #[parent] field is produced from the whole counterpart ... *)
 Theorem C03_parent_bare_from : forall f c hint idx n,
